@@ -1,9 +1,33 @@
 import UF.Driver.Decode
-/- Ops of work group C (see notes/AGENT_GUIDE.md). Return `none` for ops of other groups. -/
+import UF.Spec.Priority
+/- Ops of work group C (C06–C09). Return `none` for ops of other groups. -/
 namespace UF.Ops
 
+/-- `c07.prio <R a> <R b>`: model `isHigherPriority a b`, spec "key a > key b". -/
+def opC07Prio (args : List W) : String :=
+  match args with
+  | [a, b] =>
+    match decNetRule a, decNetRule b with
+    | some a, some b => outBool (isHigherPriority a b) ++ " " ++ outBool (specHigher a b)
+    | _, _ => "bad-decode"
+  | _ => "bad-arity"
+
+/-- `c07.matrix (<R>…) (<R>…)`: the matrix, row-major, as a string of T/F. -/
+def opC07Matrix (args : List W) : String :=
+  match args with
+  | [.l rows, .l cols] =>
+    match rows.mapM decNetRule, cols.mapM decNetRule with
+    | some rows, some cols =>
+      let m := String.join (rows.map fun a => String.join (cols.map fun b => outBool (isHigherPriority a b)))
+      let s := String.join (rows.map fun a => String.join (cols.map fun b => outBool (specHigher a b)))
+      m ++ " " ++ s
+    | _, _ => "bad-decode"
+  | _ => "bad-arity"
+
 def dispatchC (op : String) (args : List W) : Option String :=
-  match op, args with
-  | _, _ => none
+  match op with
+  | "c07.prio" => some (opC07Prio args)
+  | "c07.matrix" => some (opC07Matrix args)
+  | _ => none
 
 end UF.Ops
